@@ -14,6 +14,17 @@ import (
 type workerFailure struct {
 	mu  sync.Mutex
 	err error
+	rmu sync.Mutex // 串行化样本读取
+}
+
+// readSample 读满一个样本。
+// 随机源可能发生短读（文件、管道、硬件设备等），因此使用 io.ReadFull；
+// 加锁保证多个工作器同时读取时，每个样本仍由随机源中连续的字节组成。
+func (f *workerFailure) readSample(source io.Reader, buf []byte) error {
+	f.rmu.Lock()
+	defer f.rmu.Unlock()
+	_, err := io.ReadFull(source, buf)
+	return err
 }
 
 func (f *workerFailure) set(err error) {
@@ -40,7 +51,7 @@ func (f *workerFailure) get() error {
 func worker(jobs chan int, source io.Reader, n int, round func([]byte) []*randomness.TestResult, counter []int32, distributions [][]float64, wait *sync.WaitGroup, failure *workerFailure) {
 	buf := make([]byte, n, n*2)
 	for i := range jobs {
-		_, err := source.Read(buf)
+		err := failure.readSample(source, buf)
 		if err != nil {
 			// 读取失败也必须通知完成，否则 wg.Wait() 将永久阻塞
 			failure.set(err)
